@@ -216,6 +216,28 @@ def r_extension_filter(r, prog):
 
 
 
+def r_every_entry_walked(r, prog):
+    """Every entry of a directory that could be read is handed on (files are filtered by extension there, directories descended into): the walk
+    itself applies no filter of its own - not on the name, not on the kind of entry."""
+    import guards as _g
+    f = prog.fn('slicec::utils::file_util::find_slice_files_in_directory')
+    rec = [c for c in f.calls() if c.name() == 'find_slice_files_in_path' and not f.blocks[c.bb].get('cleanup')]
+    if len(rec) != 1:
+        raise AnchorMissing('the hand-over of a directory entry in find_slice_files_in_directory (found %d)' % len(rec))
+    c = rec[0]
+    allowed = (r'^!\(contains\(arg2,canonicalize\(arg1\) as Continue\.0\)\)$', r'^canonicalize\(arg1\) is Continue$', r'^read_dir\(arg1\) is Continue$',
+               r'^next\(into_iter\(read_dir\(arg1\) as Continue\.0\)\)( as Some\.0)? is (Some|Ok)$')
+    other = [g for g in _g.guard_set(prog, f, c.bb) if not any(re.match(a, g) for a in allowed)]
+    entry = vexpr(f, c.args[0])
+    if other:
+        r.finding('directory-entry-filtered', c.span, 'an entry of a reference directory is handed on only under %s: files or sub-directories for which that does not hold are left out without a diagnostic' % other)
+    elif not re.match(r'^path\(next\(into_iter\(read_dir\(arg1\) as Continue\.0\)\) as Some\.0 as Ok\.0\)$', entry):
+        r.finding('directory-entry-altered', c.span, 'the walk hands on %s instead of the path of the entry read' % entry[:120])
+    else:
+        r.ok('every readable entry of the directory is handed on, whatever its name or kind')
+    r.floor(1)
+
+
 def r_directory_walk_once(r, prog):
     """The walk below a reference directory follows symbolic links; it ends (and finds every file once) because every directory is
     entered at most once per walk: its canonical path is looked up in, then added to, the set of directories already walked."""
@@ -272,5 +294,6 @@ def run(ctx):
     ctx.run_rule('C17.3', 'T3', 'I/O errors become diagnostics: no io::Result is discarded', r_io_errors_are_diagnostics, prog)
     ctx.run_rule('C17.4', 'T2', 'nothing is parsed after a resolution error (phase gating)', gating.r_phase_gating, prog)
     ctx.run_rule('C17.5', 'T1', 'extension filter and directory descent', r_extension_filter, prog)
+    ctx.run_rule('C17.8', 'T2', 'the directory walk hands on every entry it could read', r_every_entry_walked, prog)
     ctx.run_rule('C17.6', 'T8', 'every directory below a reference path is walked once (terminates on link cycles)', r_directory_walk_once, prog)
     ctx.run_rule('C17.7', 'T3', 'a listed path is reported or walked, never dropped', r_unusable_paths_reported, prog)
